@@ -17,6 +17,14 @@
 //! relative to the timeout, UDP-only / TCP-only / both / mixed, warm-up failure history,
 //! 1–8 identical callers (staggered, some cancelling) or 2–8 callers over 2–4 distinct keys;
 //! (c) thorough only: multi-thread runtime, real time, 64 callers × 4 keys (clauses ii and v-outcome).
+//!
+//! Second observation point, "full stack" (d): `NameServerPool<FsRuntime>` over hickory's own
+//! connection layer (`impl ConnectionProvider for P: RuntimeProvider`, `NameServer` connection reuse,
+//! `UdpClientStream`, `TcpClientStream` + `DnsMultiplexer` + `DnsExchange`, optionally
+//! `RetryDnsHandle`) with scripted UDP sockets / TCP streams under the paused clock — `full.rs`
+//! (scenarios, sockets, runner) and `fullo.rs` (timing model + oracle, rule ids `fs-*`). It sees what
+//! the scripted `ConnectionProvider` cannot: which timeout reaches `connect_tcp` and the
+//! multiplexer, `max_active_requests`, TC=1 → TCP over real streams, retries over shared lookups.
 
 mod full;
 mod fullo;
@@ -81,6 +89,50 @@ fn main() {
     if ctx.is_thorough() {
         rep.must("stress_shared_results", m(20_000.0));
     }
+    // full-stack part (quick tier observes ≥ 3× these at seeds 1..5)
+    for (name, min) in [
+        ("fs_scenarios", 15_000.0),
+        // behaviour classes, as observed at the socket boundary (silence: as scripted)
+        ("fs_obs_udp-deliver-answer", 5000.0),
+        ("fs_obs_udp-deliver-tc", 4000.0),
+        ("fs_obs_udp-deliver-nx", 1200.0),
+        ("fs_obs_udp-send-error", 1000.0),
+        ("fs_obs_udp-recv-error", 1000.0),
+        ("fs_scripted_udp-silent", 800.0),
+        ("fs_udp_retransmissions_seen", 3000.0),
+        ("fs_obs_tcp-connect-timeout", 1500.0),
+        ("fs_obs_tcp-refused", 1500.0),
+        ("fs_scripted_tcp-conn-slower-than-connect_timeout", 500.0),
+        ("fs_obs_tcp-deliver-answer", 6000.0),
+        ("fs_obs_tcp-deliver-nx", 150.0),
+        ("fs_obs_tcp-eof", 400.0),
+        ("fs_obs_tcp-reset", 400.0),
+        ("fs_scripted_tcp-silent", 1500.0),
+        // what the oracle clauses actually got to judge
+        ("fs_connect_tcp_calls", 15_000.0),
+        ("fs_tcp_answers", 12_000.0),
+        ("fs_tc_then_tcp_answer", 4000.0),
+        ("fs_slow_tcp_answers", 4000.0),
+        ("fs_slow_udp_answers", 1500.0),
+        ("fs_connect_hang_then_healthy_answers", 2500.0),
+        ("fs_avail_exact_applicable", 8000.0),
+        ("fs_avail_exact_via_tc", 2000.0),
+        ("fs_avail_exact_slow_tcp", 2500.0),
+        ("fs_avail_exact_slow_udp", 500.0),
+        ("fs_avail_exact_after_connect_timeout", 1500.0),
+        ("fs_avail_sum_applicable", 8000.0),
+        ("fs_sharing_compared", 6000.0),
+        ("fs_sharing_joiners", 12_000.0),
+        ("fs_sharing_joiners_staggered", 1000.0),
+        ("fs_busy_cases", 1000.0),
+        ("fs_max_active_judged", 1000.0),
+        ("fs_busy_diverted_to_other_server", 800.0),
+        ("fs_connect_timeout_gt_timeout", 1500.0),
+        ("fs_retry_1", 2000.0),
+        ("fs_retry_2", 2000.0),
+    ] {
+        rep.must(name, m(min));
+    }
 
     // ---- (a) enumerated part: all ordered tuples of server profiles
     let plans: &[(usize, &[usize], &[u64])] = if ctx.is_thorough() {
@@ -111,7 +163,7 @@ fn main() {
     // ---- (d) full stack: the real connection layer over scripted sockets (full.rs / fullo.rs)
     {
         let mut frng = ctx.rng("full-stack");
-        let n = ctx.budget(48_000, 2_400_000);
+        let n = ctx.budget(48_000, 6_000_000);
         for _ in 0..n {
             let s = full::gen_full(&mut frng);
             fullo::judge(&mut rep, &s);
